@@ -39,6 +39,7 @@ pub enum Sink {
     Forget,
     Mut(Box<Sink>),
     Lazy(usize, usize, Box<Sink>),
+    LazyDown(usize, Box<Sink>),
 }
 #[derive(Clone, Copy, Debug, PartialEq)]
 pub enum Bound {
@@ -94,6 +95,8 @@ pub enum Op {
     Swap(usize, usize, usize, usize, usize),
     Parts(usize, usize),
     Placement,
+    IterNth(IterKind, usize, Vec<(bool, usize)>),
+    LazyDown(usize, usize, usize),
 }
 
 #[derive(Clone, Debug)]
@@ -171,6 +174,7 @@ fn parse_sink(s: &str) -> Sink {
         match p.as_slice() {
             ["mut"] => Sink::Mut(k),
             ["lz", n, v] => Sink::Lazy(u(n), u(v), k),
+            ["lzd", n] => Sink::LazyDown(u(n), k),
             _ => panic!("bad sink {:?}", s),
         }
     } else {
@@ -200,6 +204,12 @@ fn parse_pat_ro(s: &str) -> Vec<bool> {
         return vec![];
     }
     s.chars().map(|c| c == 'F').collect()
+}
+fn parse_pat_nth(s: &str) -> Vec<(bool, usize)> {
+    if s == "-" {
+        return vec![];
+    }
+    s.split(',').map(|it| (&it[..1] == "F", u(&it[1..]))).collect()
 }
 fn parse_pat(s: &str) -> Vec<(bool, Sink)> {
     if s == "-" {
@@ -264,6 +274,8 @@ pub fn parse_op(t: &[&str]) -> Op {
         ["swap", pr, v1, i, v2, j] => Op::Swap(u(pr), u(v1), u(i), u(v2), u(j)),
         ["parts", v, m] => Op::Parts(u(v), u(m)),
         ["placement"] => Op::Placement,
+        ["iter_nth", k, v, p] => Op::IterNth(parse_ik(k), u(v), parse_pat_nth(p)),
+        ["lazy_down", d, v, i] => Op::LazyDown(u(d), u(v), u(i)),
         _ => panic!("bad op {:?}", t),
     }
 }
